@@ -375,7 +375,9 @@ def c11_case(task):
         ws.make_ws(root, files, {'p1.patch': good}, [])
         with open(os.path.join(root, 'series'), 'wb') as f:
             f.write(b''.join(l + b'\n' for l in payload))
-    o = ws.run_rq(root, ['-a'], threads=threads, trace=os.path.join(d, 'trace'), timeout=8, mem_limit=1 << 30)
+    # the horizon is processor time (20 s; the slowest input needs 6), which does not depend on how busy the machine is; the wall clock
+    # only guards against a process that sleeps forever
+    o = ws.run_rq(root, ['-a'], threads=threads, trace=os.path.join(d, 'trace'), timeout=300, mem_limit=1 << 30, cpu_limit=20)
     out = {'evals': 1, 'violations': [], 'outcomes': {kind + ':exit-' + o.cls: 1}, 'nontrivial': 1 if o.cls == '0' else 0}
     if o.cls not in ('0', '1'):
         if kind == 'patch':
@@ -473,7 +475,7 @@ def run_c11(tier, seed, res):
     acc.finish('cli_sweep')
     res.coverage['cli_spaces'] = sizes
     res.coverage['cli_series_file_tokens'] = len(SERIES_TOKENS)
-    res.coverage['cli_rule'] = ('the real binary (default verbosity, RLIMIT_AS 4 GiB, 8 s horizon, threads alternating 1/2) on: every token sequence of length <= 2, every k-th element of the edit and grid '
+    res.coverage['cli_rule'] = ('the real binary (default verbosity, RLIMIT_AS 1 GiB, a horizon of 20 s of processor time (RLIMIT_CPU; 300 s wall clock), threads alternating 1/2) on: every token sequence of length <= 2, every k-th element of the edit and grid '
                                'spaces (k as listed; the lib-level sweep runs them all), each hunk-header field alone over the full boundary grid, and every sequence of <= %d series-file lines over %d tokens '
                                '(option spellings incl. missing/garbage/overlong arguments, comments, blank and whitespace-only lines, non-UTF-8 and NUL bytes). Oracle: exit class 0 or 1.') % (maxlen, len(SERIES_TOKENS))
 
